@@ -32,7 +32,7 @@ func init() {
 	Register(&Check{
 		ID:        "C10",
 		Level:     "exploration",
-		Technique: "bounded-exhaustive hostile-input enumeration (all truncations, all single/paired boundary-word substitutions, all short word strings) on the real decoder with panic/over-read/row-count/allocation oracles",
+		Technique: "bounded-exhaustive hostile-input enumeration (all truncations, all single/paired boundary-word substitutions, all short word strings) on the real decoder (Result.Scan and Integration.Insert) with panic/over-read/row-count/allocation oracles",
 		Rule: "events: all declarations <= 5 nodes (thorough 6) over leaves {uint256,bytes}, k in {2,12}, every selection mask; inputs: every prefix length of a valid encoding (beyond 640 bytes: the three lengths around every word boundary); every word (encodings > 2 KiB: first 40 and last 8 words) x 18 boundary values {0,1,31,32,33,len-32,len-31,len,len+1,2^31,2^32,2^63-1,2^63,2^64-32,2^64-1,2^64,2^255,2^256-1}; all strings of <= 4 words over {0,1,32,64,2^63,2^256-1}. " +
 			"Non-trivial = the input differs from the valid encoding and at least one leaf is selected; each (event,mask,input) is enumerated once.",
 		Assumptions: []string{
@@ -167,10 +167,19 @@ func c10Group(c *fw.Ctx, inputs []*ref.Node, group string, only string) {
 			c.Outcome("alloc")
 		}
 	}()
+	// the same inputs through Integration.Insert (gate, Scan, conversion of every cell to its database type, CopyFrom)
+	ins, hasIns := newAbiIns(ev)
 	try := func(data []byte, valid bool) {
 		c.Tick()
 		allow += c10Allow(ncols, depth, len(data)) + uint64(3*len(data))
 		class, detail := c10One(ev, ncols, depth, data)
+		if class == "" && hasIns {
+			allow += 4*c10Allow(ncols, depth, len(data)) + uint64(3*len(data))
+			if _, _, p := ins.insert(data); p != "" {
+				class, detail = "panic-insert", "Integration.Insert: panic: "+p
+			}
+			c.Count("inserts", 1)
+		}
 		c.Eval(sel && !valid)
 		if class != "" {
 			k := kcase
